@@ -44,6 +44,12 @@ def count_markers(t):
 
 def run_case(tid, cands, alt, atoms, rng):
     from shangrla.core import IRVVisualisationUtils as V
+    # candidate identifiers are strings of different lengths in real exports ("1", "2", "12"): rename consistently
+    if rng.random() < 0.5:
+        ren = dict(zip(cands, ["1", "2", "12", "3", "21"][:len(cands)]))
+        cands = [ren[c] for c in cands]
+        alt = ren[alt]
+        atoms = [dict(a, w=ren[a["w"]], l=ren[a["l"]], elim=sorted(ren[e] for e in a["elim"])) for a in atoms]
     rec = {"tid": tid, "cands": cands, "alt": alt, "atoms": atoms}
     proved = [rng.random() < 0.5 for _ in atoms]
     wol = [(a["l"], a["w"], p) for a, p in zip(atoms, proved) if a["kind"] == "NEB"]
